@@ -12,6 +12,8 @@
 //!    "steps": [{"open": relpath, "text": t} | {"change": relpath, "text": t}
 //!              | {"request": kind, "path": relpath, "line": l, "character": c}
 //!              | {"request": "inlayHint", "path": relpath, "range": [l0, c0, l1, c1]}
+//!              | {"change_empty": relpath}                 didChange with contentChanges: [] (schema-legal; no diagnostics follow)
+//!              | {"close": relpath}                        didClose (an "open" of the same path afterwards restarts its version at 1)
 //!              | {"write_disk": relpath, "text": t}        (rewrites a file of the temp workspace; no message is sent)
 //!              | {"wait_idle": true} | {"sleep_ms": n}],
 //!    "watchdog_ms": 10000, "quiet_ms": 300, "hard_ms": 120000,
@@ -607,6 +609,19 @@ async fn session(shared: Arc<Shared>, script: Value) -> Value {
             shared.push(json!({"ev": "sent", "step": i, "what": "request", "kind": kind, "id": id, "path": p}));
             d.pending.insert(id, (kind.to_string(), Instant::now(), i));
             d.send(json!({"jsonrpc": "2.0", "id": id, "method": method, "params": params})).await;
+        } else if let Some(p) = st.get("change_empty").and_then(|p| p.as_str()) {
+            let uri = d.uri(p);
+            let v = doc_versions.entry(p.to_string()).or_insert(1);
+            *v += 1;
+            let v = *v;
+            shared.push(json!({"ev": "sent", "step": i, "what": "didChangeEmpty", "path": p}));
+            d.send(json!({"jsonrpc": "2.0", "method": "textDocument/didChange", "params": {
+                "textDocument": {"uri": uri, "version": v}, "contentChanges": []}})).await;
+        } else if let Some(p) = st.get("close").and_then(|p| p.as_str()) {
+            let uri = d.uri(p);
+            doc_versions.remove(p);
+            shared.push(json!({"ev": "sent", "step": i, "what": "didClose", "path": p}));
+            d.send(json!({"jsonrpc": "2.0", "method": "textDocument/didClose", "params": {"textDocument": {"uri": uri}}})).await;
         } else if let Some(p) = st.get("write_disk").and_then(|p| p.as_str()) {
             is_io = false;
             let path = shared.root.join(p);
